@@ -273,12 +273,19 @@ Proof.
   apply elem_of_list_filter in Hr as [_ Hr]. rewrite Forall_forall in H. by apply H.
 Qed.
 
-Lemma run_batch_agg st rs : (run_batch st rs).1 = fold_left agg_step_core rs agg0.
-Proof. unfold run_batch, finalize. simpl. by rewrite fold_agg_step_split. Qed.
+Lemma aggregate_agg rs : (aggregate rs).1 = fold_left agg_step_core rs agg0.
+Proof. unfold aggregate. by rewrite fold_agg_step_split. Qed.
 
-Lemma union_sum st rs :
+(* without time binning the finalization leaves the aggregate as it is *)
+Lemma run_batch_agg_nobin st rs : st_bin st = 0 → (run_batch st rs).1 = (aggregate rs).1.
+Proof.
+  intros H. unfold run_batch, finalize, fin_hits. simpl. rewrite binned_none by (by right).
+  apply with_hits_id.
+Qed.
+
+Lemma union_sum rs :
   hosts_distinct rs → rows_wf rs →
-  let A := (run_batch st rs).1 in
+  let A := (aggregate rs).1 in
   (* rows: the union of the hosts' rows, counters of equal keys summed (mod 2^64) *)
   (∀ k, a_rows A !! k = match key_counters k (all_rows rs) with [] => None | cs => Some (csum cs) end) ∧
   (* totals and statistics: sums over the successful replies *)
@@ -295,7 +302,7 @@ Lemma union_sum st rs :
   (∀ i, i ∈ a_ifaces A ↔ i ∈ oks rs ≫= hr_ifaces) ∧
   a_first A = spec_first rs ∧ a_last A = spec_last rs.
 Proof.
-  intros Hd Hwf A. subst A. rewrite run_batch_agg.
+  intros Hd Hwf A. subst A. rewrite aggregate_agg.
   assert (NoDup (rs ≫= sts_of).*1) as Hnd by (by rewrite sts_of_keys).
   repeat split.
   - intros k. rewrite fold_rows, lookup_merge_map. simpl. rewrite lookup_empty.
